@@ -73,6 +73,10 @@ INT_TEXTS = ["0", "-0", "+0", "1", "-1", "+7", "007", "017", "-017", "1_000", "1
              "0x8000000000000000", "0x-8000000000000000", "0o777777777777777777777", "0o1000000000000000000000", "18446744073709551615",
              "18446744073709551616", "9007199254740993", "-9007199254740993", "123456789012345678901234567890", "0x0", "00x1", "0xx1", "٣"]
 BOOL_TEXTS = ["true", "false", "True", "TRUE", "yes", "Yes", "YES", "y", "Y", "on", "ON", "oN", "no", "off", "n", "", "maybe", "1", "0", "truee", "tru", "yess", "o n"]
+FLOAT_TEXTS = [".inf", "-.inf", "+.inf", ".Inf", ".INF", "-.Inf", "-.INF", "+.Inf", "+.INF", ".nan", ".NaN", ".NAN", "inf", "-inf", "+inf", "Inf", "INF", "infinity",
+               "Infinity", "-Infinity", "nan", "NaN", "NAN", "+nan", "-nan", "infx", "nanx", "", ".", "+", "-", "e5", ".e5", "1e", "1e+", "1e-", "1.2.3", "1..2", "1e5x", "x", "1x",
+               "_1.5", "1_.5", "1._5", "1_e5", "1e_1", "1__0.5", "1.5_", "0x", "0x1", "1,5", " 1.5", "1.5 ", "1e5.5", "--1", "+-1", "1e++1", "0b1", "0o7.5", "١.٥",
+               "1.5", ".5", "5.", "1e3", "1_0.5", "-.5e-3", "1e1_0", "1E5", "+1.0", "-0.0", "007.5", "1e400", "-1e999", "1e-999", "123456789012345678901234567890"]
 OTHER_TAGS = ["!!str", "!!binary", "!!timestamp", "!!merge", "!!", "!!Int", "!!int ", "!!seq", "!!map", "!!set", "!!omap"]
 
 
@@ -105,6 +109,8 @@ def gen_node(rng, depth=0, maxdepth=4):
             return {"k": "s", "t": tag, "v": gen_bytes(rng)}
         if q < 0.7:
             return {"k": "s", "t": "!!int", "v": gen_int_text(rng).encode()}
+        if q < 0.74:
+            return {"k": "s", "t": "!!float", "v": rng.choice(FLOAT_TEXTS[:62]).encode()}
         if q < 0.82:
             return {"k": "s", "t": "!!bool", "v": rng.choice(BOOL_TEXTS).encode()}
         if q < 0.9:
@@ -266,8 +272,8 @@ class GT:
         self.kind, self.val, self.text, self.items = kind, val, text, items
 
 
-PLAIN_SAFE = re.compile(r"^[A-Za-z_][A-Za-z0-9_./-]*$")
-RESOLVES = re.compile(r"^(<<|=|~|null|Null|NULL|true|True|TRUE|false|False|FALSE|y|Y|yes|Yes|YES|n|N|no|No|NO|on|On|ON|off|Off|OFF|\.inf|\.Inf|\.INF|\.nan|\.NaN|\.NAN)$")
+PLAIN_SAFE = re.compile(r"\A[A-Za-z_][A-Za-z0-9_./-]*\Z")
+RESOLVES = re.compile(r"\A(<<|=|~|null|Null|NULL|true|True|TRUE|false|False|FALSE|y|Y|yes|Yes|YES|n|N|no|No|NO|on|On|ON|off|Off|OFF|\.inf|\.Inf|\.INF|\.nan|\.NaN|\.NAN)\Z")
 
 
 def yaml_dq(s):
@@ -655,6 +661,10 @@ def run(chk):
         nodes.append({"k": "s", "t": "!!int", "v": t.encode()})
     for t in BOOL_TEXTS:
         nodes.append({"k": "q", "c": [{"k": "s", "t": "!!bool", "v": t.encode()}]})
+    float_probe = set()
+    for t in FLOAT_TEXTS:
+        float_probe.add(len(nodes))
+        nodes.append({"k": "s", "t": "!!float", "v": t.encode()})
     for s in LOOKALIKES:
         nodes.append({"k": "q", "c": [{"k": "s", "t": "!!str", "v": s.encode()}]})
     for _ in range(n_enc):
@@ -689,7 +699,19 @@ def run(chk):
             break
         n_enc_cmp += len(cases)
         for j, mo in mism:
-            disagreements.append(("encoder", node_coq(nodes[items[j][0]])[:400], cfg, items[j][1][:200], mo[:200] if isinstance(mo, bytes) else mo))
+            i0, ib0 = items[j]
+            if i0 in float_probe and mo == b"ERR:unm":
+                # the model only decides whether ParseFloat accepts the text; an accepted one is printed by goccy (not modelled)
+                txt = nodes[i0]["v"].decode()
+                numeric_ok = not ib0.startswith(b"ERR")
+                out_of_range = False
+                try:
+                    out_of_range = ib0 == b"ERR:float" and math.isinf(float(txt.replace("_", "")))
+                except ValueError:
+                    out_of_range = False
+                if numeric_ok or out_of_range:
+                    continue
+            disagreements.append(("encoder", node_coq(nodes[i0])[:400], cfg, ib0[:200], mo[:200] if isinstance(mo, bytes) else mo))
     chk.extra["encoder_cases_compared"] = n_enc_cmp
 
     vlib.log("C06 section 1 at %.1fs" % (time.time() - chk.t0))
